@@ -22,6 +22,9 @@ type Spec struct {
 	Ratio   string `json:"ratio,omitempty"`       // ycbcr: 444 422 420 440 411 410
 	Transp  bool   `json:"transparent,omitempty"` // rgba / nrgba: about a quarter of the pixels are fully transparent (alpha 0)
 	Nil     bool   `json:"nil,omitempty"`
+	// TypedNil: with Nil, the interface holds a nil pointer of the image type named by Kind (a "nil image" as a caller
+	// who declared `var img *image.RGBA` passes it) instead of being the nil interface
+	TypedNil bool `json:"typed_nil,omitempty"`
 	Empty   bool   `json:"empty,omitempty"` // rectangle of the given size without pixel storage
 }
 
@@ -125,6 +128,18 @@ func ratioOf(s string) image.YCbCrSubsampleRatio {
 // from RGB(x, y) by taking r as Y, g as Cb, b as Cr of the *first* pixel of each
 // chroma cell (so that every subsampling ratio is well defined).
 func (s Spec) Build() image.Image {
+	if s.Nil && s.TypedNil {
+		switch s.Kind {
+		case "nrgba":
+			return (*image.NRGBA)(nil)
+		case "gray":
+			return (*image.Gray)(nil)
+		case "ycbcr":
+			return (*image.YCbCr)(nil)
+		default:
+			return (*image.RGBA)(nil)
+		}
+	}
 	if s.Nil {
 		return nil
 	}
